@@ -499,8 +499,6 @@ theorem view_blank (r : Ring) (k : Bytes) (its : List (Bytes × (Bytes × Nat)))
     | none => simp
     | some y => simp
 
-/-- the ring invariant implies the invariant of the age-ordered model: every theorem of `FifoProofs` that assumes
-    `ShardInv` applies to `r.toShard` -/
 theorem nodup_filterMap_id (l : List (Option Bytes))
     (hinj : ∀ (i j : Nat) (x : Bytes), l[i]? = some (some x) → l[j]? = some (some x) → i = j) :
     (l.filterMap id).Nodup := by
@@ -528,6 +526,8 @@ theorem mem_view (r : Ring) (x : Bytes) :
   · rintro ⟨j, hj⟩; exact ⟨j, (view_getElem?_some r j x).mp hj⟩
   · rintro ⟨j, hj⟩; exact ⟨j, (view_getElem?_some r j x).mpr hj⟩
 
+/-- the ring invariant implies the invariant of the age-ordered model: every theorem of `FifoProofs` that assumes
+    `ShardInv` applies to `r.toShard` -/
 theorem RingInv.toShardInv (r : Ring) (h : RingInv r) : ShardInv r.m r.toShard where
   len := toShard_view_length r
   nodup := by
